@@ -1,7 +1,12 @@
 /*
  * executor for family `walk` (property C14): cif_walk over a CIF built through the public API, with a handler program.
  *
- *   walk <cif tokens (harness/cifio.h)> prog <k>:<resp> ...
+ *   walk [lq<mask>] <cif tokens (harness/cifio.h)> prog <k>:<resp> ...
+ *        lq<mask>: queries through the LOOP handle inside callbacks.  bit 1: in loop_start and loop_end open an own packet iterator
+ *        through the handle, count the packets, close it (` i:<rc of cif_loop_get_packets>:<packets>:<rc of the last next_packet>:<rc
+ *        of cif_pktitr_close | -1>` appended to the @ls / @le event).  bit 2: in packet_start, item and packet_end ask the loop handle
+ *        saved at loop_start for its category and names while the walker's own iterator is open (` l:<category|~>:<n>:<name>,…`
+ *        appended to the @ps / @it / @pe event).
  *   walk consts                                   -> wk consts <CONTINUE SKIP_CURRENT SKIP_SIBLINGS END CIF_OK CIF_FINISHED CIF_EMPTY_LOOP>
  *
  * The k-th callback invocation (k = 0, 1, ...) answers <resp> when listed, CIF_TRAVERSE_CONTINUE (0) otherwise.
@@ -33,6 +38,8 @@ static struct { long k; int resp; } prog[MAXPROG];
 static int nprog;
 static long ncalls;
 static FILE *lg;
+static int lqmask;
+static cif_loop_tp *cur_loop;     /* the loop handle passed to the most recent loop_start */
 
 static int answer(void) {
     int i, r = CIF_TRAVERSE_CONTINUE;
@@ -103,6 +110,32 @@ static void log_loop(const char *tag, cif_loop_tp *loop) {
     fprintf(lg, " %d", n);
     for (i = 0; i < n; i++) { fprintf(lg, " "); fhex(lg, names[i]); free(names[i]); }
     free(names);
+    if (lqmask & 1) {
+        /* a handler's own pass over the packets, through the handle it was given */
+        cif_pktitr_tp *it = NULL;
+        cif_packet_tp *pk = NULL;
+        int rc = cif_loop_get_packets(loop, &it), npk = 0, rc2 = 0, crc = -1;
+        if (rc == CIF_OK) {
+            while ((rc2 = cif_pktitr_next_packet(it, &pk)) == CIF_OK) npk++;
+            crc = cif_pktitr_close(it);
+            if (pk) cif_packet_free(pk);
+        }
+        fprintf(lg, " i:%d:%d:%d:%d", rc, npk, rc2, crc);
+    }
+}
+
+/* read-only queries through the loop handle saved at loop_start, while the walker's iterator is open */
+static void log_loop_of_packet(void) {
+    UChar *cat = NULL, **names = NULL;
+    int i;
+    if (!(lqmask & 2)) return;
+    if (!cur_loop || cif_loop_get_category(cur_loop, &cat) != CIF_OK) { fprintf(lg, " l:!"); return; }
+    fprintf(lg, " l:"); fhex(lg, cat); free(cat);
+    if (cif_loop_get_names(cur_loop, &names) != CIF_OK) { fprintf(lg, ":!"); return; }
+    for (i = 0; names[i]; i++) ;
+    fprintf(lg, ":%d:", i);
+    for (i = 0; names[i]; i++) { if (i) fprintf(lg, ","); fhex(lg, names[i]); free(names[i]); }
+    free(names);
 }
 
 static void log_packet_body(FILE *f, cif_packet_tp *p) {
@@ -130,12 +163,12 @@ static int h_block_start(cif_container_tp *c, void *ctx) { log_code("@bs", c); r
 static int h_block_end(cif_container_tp *c, void *ctx) { log_code("@be", c); return answer(); }
 static int h_frame_start(cif_container_tp *c, void *ctx) { log_code("@fs", c); return answer(); }
 static int h_frame_end(cif_container_tp *c, void *ctx) { log_code("@fe", c); return answer(); }
-static int h_loop_start(cif_loop_tp *l, void *ctx) { log_loop("@ls", l); return answer(); }
-static int h_loop_end(cif_loop_tp *l, void *ctx) { log_loop("@le", l); return answer(); }
-static int h_packet_start(cif_packet_tp *p, void *ctx) { fprintf(lg, " @ps"); log_packet_body(lg, p); return answer(); }
-static int h_packet_end(cif_packet_tp *p, void *ctx) { fprintf(lg, " @pe"); log_packet_body(lg, p); return answer(); }
+static int h_loop_start(cif_loop_tp *l, void *ctx) { cur_loop = l; log_loop("@ls", l); return answer(); }
+static int h_loop_end(cif_loop_tp *l, void *ctx) { log_loop("@le", l); cur_loop = NULL; return answer(); }
+static int h_packet_start(cif_packet_tp *p, void *ctx) { fprintf(lg, " @ps"); log_packet_body(lg, p); log_loop_of_packet(); return answer(); }
+static int h_packet_end(cif_packet_tp *p, void *ctx) { fprintf(lg, " @pe"); log_packet_body(lg, p); log_loop_of_packet(); return answer(); }
 static int h_item(UChar *name, cif_value_tp *v, void *ctx) {
-    fprintf(lg, " @it "); fhex(lg, name); fprintf(lg, " "); fdump_value(lg, v); return answer(); }
+    fprintf(lg, " @it "); fhex(lg, name); fprintf(lg, " "); fdump_value(lg, v); log_loop_of_packet(); return answer(); }
 
 /* ---- the listing (enumeration orders) ---- */
 static void list_loop(FILE *f, cif_loop_tp *loop) {
@@ -187,7 +220,8 @@ static void handle(int argc, char **argv) {
     char *logtext = NULL;
     size_t logsize = 0;
 
-    nprog = 0; ncalls = 0;
+    nprog = 0; ncalls = 0; lqmask = 0; cur_loop = NULL;
+    if (argc > 1 && argv[1][0] == 'l' && argv[1][1] == 'q') { lqmask = atoi(argv[1] + 2); pos = 2; }
     if (argc == 2 && strcmp(argv[1], "consts") == 0) {   /* the constants the model hard-codes */
         OUT("wk consts %d %d %d %d %d %d %d", CIF_TRAVERSE_CONTINUE, CIF_TRAVERSE_SKIP_CURRENT, CIF_TRAVERSE_SKIP_SIBLINGS,
             CIF_TRAVERSE_END, CIF_OK, CIF_FINISHED, CIF_EMPTY_LOOP);
